@@ -158,13 +158,18 @@ class BodyReader:
         raise Unknown("unrecognised return shape: " + ast.unparse(e0))
 
     def guard(self, test):
-        if (isinstance(test, ast.Compare) and len(test.ops) == 1 and isinstance(test.ops[0], ast.Is)
+        """(param, value, positive): `p is V` -> positive, `p is not V` / `not (p is V)` -> negative"""
+        if isinstance(test, ast.UnaryOp) and isinstance(test.op, ast.Not):
+            p, v, pos = self.guard(test.operand)
+            return p, v, not pos
+        if (isinstance(test, ast.Compare) and len(test.ops) == 1 and isinstance(test.ops[0], (ast.Is, ast.IsNot))
                 and isinstance(test.left, ast.Name) and test.left.id in self.params and test.left.id not in self.locals):
             c = test.comparators[0]
+            pos = isinstance(test.ops[0], ast.Is)
             if isinstance(c, ast.Constant) and c.value is None:
-                return (test.left.id, "None")
+                return (test.left.id, "None", pos)
             if isinstance(c, ast.Name) and c.id not in self.params and c.id not in self.locals:
-                return (test.left.id, c.id)
+                return (test.left.id, c.id, pos)
         raise Unknown("unrecognised guard: " + ast.unparse(test))
 
     # -- statements
@@ -207,18 +212,34 @@ class BodyReader:
             if self._simple(st):
                 continue
             if isinstance(st, ast.If):
+                p, v, positive = self.guard(st.test)
+                rest = stmts[i + 1:]
                 if st.orelse:
-                    raise Unknown("if with else")
-                p, v = self.guard(st.test)
+                    if rest:
+                        raise Unknown("code after if/else")
+                    rest = st.orelse  # `if G: return A else: return B` == `if G: return A` + `return B`
+                then, other = (st.body, rest) if positive else (rest, st.body)
+                if not positive and st.orelse == [] and not rest:
+                    raise Unknown("if without continuation")
+                # normal form: the `p is V` arm first; the other arm continues under `not (p is V)`.
+                # For a flipped test (`p is not V`) the arms are swapped, which is only done when the
+                # arm that becomes the continuation is a plain block (no further branching is reordered).
                 saved = dict(self.locals)
                 inner = []
-                self._block(st.body, negs + [["is", p, v]], inner, top=False)
+                self._block(then, negs + [["is", p, v]], inner, top=False)
                 if len(inner) != 1:
                     raise Unknown("nested branching")
                 branches.append(inner[0])
-                self.locals = saved
+                self.locals = dict(saved)
                 negs.append(["not", p, v])
-                continue
+                if positive and not st.orelse:
+                    continue  # the statements after the `if` are the continuation: keep walking
+                cont = []
+                self._block(other, negs, cont, top=False)
+                if not positive and len(cont) != 1:
+                    raise Unknown("flipped test with further branching")
+                branches.extend(cont)
+                return
             if isinstance(st, ast.Return):
                 if i != len(stmts) - 1 or st.value is None:
                     raise Unknown("code after return / bare return")
